@@ -215,6 +215,13 @@ PROPS = {
         assumptions=[ASYNC, ENGINE,
             '"returns only after the peer\'s answer" is decided as a safety clause (detach / close / end_session / wait_for_remote_end return Ok only once the peer\'s detach / End has been taken from the incoming channel; units LINKDETACH, SESSENG); "answered no later than the next operation" and "within bounded time" are liveness statements and are not decided',
             'Drop impls racing with the engine are not decided']),
+    'C16': dict(
+        units=['REASM', 'SENDSPLIT'], kani=[], level='proof', title='Cancel safety (custody obligations at the cancellation points of recv and send)',
+        assumptions=[
+            'DECIDED (necessary conditions, stated at the await points of the functions under contract): (recv) payload octets taken from the link channel for a delivery not yet returned are held by the receiver itself -- its reassembly buffer -- whenever the recv future can be dropped: partial deliveries are parked in ReceiverInner::incomplete_transfer (on_incomplete_transfer), and no cancellation point may be reached while a completed delivery is owned by locals only; (send) no cancellation point between consuming a link credit and queueing the first frame, nor between two frames of one delivery',
+            'a cancellation point is an `.await` on a bounded-channel send (tokio mpsc; it also returns Pending when the task\'s cooperative budget is used up): the awaited calls are stand-ins carrying the obligation as a precondition, placed where the source awaits (send_transfer(..).await, self.dispose(..).await, the call of send_payload_with_transfer); that each single tokio operation (mpsc send / recv, Notify) is itself cancel safe is taken from the tokio documentation',
+            'NOT DECIDED: what a dropped future does inside library futures; the Detach arm of recv_inner and Sender::send\'s wait for the outcome; starvation dynamics under repeated cancellation beyond the per-call credit leak; duplicates (none possible in the functions under contract: a frame leaves the channel once)',
+            ASYNC]),
     'C15': dict(
         units=['SESSION', 'CONN', 'FRAMEDEC', 'LINK', 'CONNENG', 'TRANSPORT'], kani=[], level='proof', title='Misbehaving peer',
         assumptions=[ASYNC, ENGINE,
@@ -244,6 +251,5 @@ for _p, _c in PROPS.items():
 
 NOT_APPLICABLE = {
     'C14': 'liveness over transport cut points x pending operations x schedules of four tokio tasks; neither Verus nor Kani models tasks, wake-ups or channel closure, and no per-function contract decides any sentence of it',
-    'C16': 'quantifies over the await point at which a future is dropped; rule R3 erases exactly those suspension points, Kani cannot execute tokio mpsc/Notify within resource limits, Verus has no model of Future::poll/drop',
 }
 HOOK_COMMITS = ['50c72688828bb1ba5a3731d0192bb151612b610c', 'bf327aa51af9b76a87183aedae6f2a001cbfe489', '51493c7968daf9e3e5d2f7edfd0ffd63d8233deb']
